@@ -3,9 +3,10 @@
 // Contracts for package objectsets (comment-only; read by /verif's govc, never compiled into the product).
 package objectsets
 
-//@ props C03,C04,C05,C11
+//@ props C03,C04,C05,C06,C08,C11
 //@ func package-operator.run/internal/controllers/objectsets.(*objectSetPhasesReconciler).reconcileLocalPhase
 //@   requires [C03] !failedSoFar()
+//@   requires [C03] probe == parsedProbe()
 //@   requires [C11] len(phase.Class) == 0
 //@   ghost failedSoFar() := old(failedSoFar()) || result2 != nil || !(len(result1.PhaseName) == 0 && len(result1.FailedProbes) == 0)
 //@   ensures [C03] failedSoFar() == (old(failedSoFar()) || result2 != nil || !(len(result1.PhaseName) == 0 && len(result1.FailedProbes) == 0))
@@ -13,12 +14,23 @@ package objectsets
 
 //@ func package-operator.run/internal/controllers/objectsets.(*objectSetPhasesReconciler).reconcilePhase
 //@   requires [C03] !failedSoFar()
+//@   requires [C03] probe == parsedProbe()
 //@   ghost failedSoFar() := old(failedSoFar()) || result2 != nil || !(len(result1.PhaseName) == 0 && len(result1.FailedProbes) == 0)
 //@   ensures [C03] failedSoFar() == (old(failedSoFar()) || result2 != nil || !(len(result1.PhaseName) == 0 && len(result1.FailedProbes) == 0))
 //@   ensures tdPending() == old(tdPending())
 
+// the phases are gated on the availability probes of this ObjectSet as parsed in this pass (parsedProbe() is the prober
+// the most recent Parse of this pass returned; it is handed down unchanged to the phase reconciler)
 //@ func package-operator.run/internal/controllers/objectsets.(*objectSetPhasesReconciler).reconcile
 //@   requires [C03] !failedSoFar()
+//@   at Parse#1 assert [C03] arg1 == probesOf(objectSet)
+//@   after Parse#1 ghost parsedProbe() := result0
+//@   loop @reconcilePhase invariant [C03] parsedProbe() == loopentry(parsedProbe())
+// status.controllerOf is gathered from every phase that was reconciled in this pass, the failing one included (an
+// unavailable revision is archived only if it controls nothing the next revision contains - decided from this list)
+//@   after reconcilePhase ghost ctrlGathered() := ctrlGathered() + len(result0)
+//@   loop @reconcilePhase invariant [C06,C08] len(controllerOfAll) == ctrlGathered() - old(ctrlGathered())
+//@   ensures [C06,C08] result2 == nil ==> len(result0) == ctrlGathered() - old(ctrlGathered())
 //@   ghost failedSoFar() := old(failedSoFar()) || result2 != nil || !(len(result1.PhaseName) == 0 && len(result1.FailedProbes) == 0)
 //@   ensures failedSoFar() == (old(failedSoFar()) || result2 != nil || !(len(result1.PhaseName) == 0 && len(result1.FailedProbes) == 0))
 //@   loop 1 invariant [C03] !failedSoFar()
@@ -138,3 +150,31 @@ package objectsets
 //@   loop 1 invariant? loopbool ==> !sawUnpaused() || old(sawUnpaused())
 //@   ensures [C08] arePaused && err == nil && !old(sawUnpaused()) ==> !sawUnpaused()
 //@   ensures [C08] arePaused ==> !unknown && err == nil
+
+//@ props C04,C14
+// The finalizer that holds the ObjectSet until teardown is done is persisted before anything of this pass can create
+// or adopt an object: the sub-reconcilers (revision, slices, phases) run only after EnsureCachedFinalizer succeeded.
+//@ func package-operator.run/internal/controllers/objectsets.(*GenericObjectSetController).Reconcile
+// (a pass starts with its pass-scoped ghost state cleared)
+//@   requires !tdPending() && !archivedNow() && !subErr() && !errReported()
+//@   at reconciler.Reconcile assert [C04] finEnsured(clientObj(objectSet))
+//@   loop @reconciler.Reconcile invariant [C04] finEnsured(clientObj(objectSet))
+// an error of a sub-reconciler (e.g. a referenced ObjectSlice that cannot be read yet) is never dropped: the pass
+// either returns an error (and is retried) or hands it to the status reporting - a sliced ObjectSet whose slice is
+// late is retried like any other failure instead of going idle
+//@   after reconciler.Reconcile ghost subErr() := result1 != nil
+//@   at UpdateObjectSetOrPhaseStatusFromError ghost errReported() := true
+//@   loop @reconciler.Reconcile invariant [C14] !subErr() && !errReported()
+//@   ensures [C14] subErr() ==> err != nil || errReported()
+//@   sink SubResourceWriter.Update requires [C04] true
+
+//@ props C07
+// A new ObjectSet gets a revision number strictly greater than that of every ObjectSet its spec.previous names: each of
+// them is read in this pass (readRev(k) is what the k-th reported, never 0 - an unreported revision makes the pass wait) and the number set is above all of them.
+//@ func package-operator.run/internal/controllers/objectsets.(*revisionReconciler).Reconcile
+//@   after GetRevision#2 ghost readRev(idx) := result
+//@   loop @Client.Get invariant [C07] 0 <= idx && idx <= len(prevListOf(objectSet)) && prevListOf(objectSet) == old(prevListOf(objectSet))
+//@   loop @Client.Get invariant [C07] forall k int :: 0 <= k && k < idx ==> readRev(k) != 0 && readRev(k) <= loopint
+//@   at loopexit@Client.Get assert [C07] forall k int :: 0 <= k && k < len(prevListOf(objectSet)) ==> readRev(k) != 0 && readRev(k) <= loopint
+//@   at SetRevision#2 assert [C07] forall k int :: 0 <= k && k < len(prevListOf(objectSet)) ==> readRev(k) < arg0
+//@   sink SubResourceWriter.Update requires [C07] true
